@@ -127,3 +127,153 @@ Proof.
     revert Hres. apply IHk; rewrite ?app_length; cbn [length]; lia.
   - destruct (cy_first_is seen name); discriminate.
 Qed.
+
+(* ---------------------------------------------------------------- chains and simple chains *)
+
+Inductive cy_chain (s : schema) : str -> list str -> str -> Prop :=
+| cy_chain_one a b : cy_step s a b -> cy_chain s a [] b
+| cy_chain_cons a c l b : cy_step s a c -> cy_chain s c l b -> cy_chain s a (c :: l) b.
+
+Lemma cy_clos_chain s a b : clos_trans str (cy_step s) a b -> exists l, cy_chain s a l b.
+Proof.
+  intros H. apply clos_trans_t1n in H. induction H as [a b H|a c b H _ [l IH]].
+  - exists []. now constructor.
+  - exists (c :: l). now constructor.
+Qed.
+
+Lemma cy_chain_clos s a l b : cy_chain s a l b -> clos_trans str (cy_step s) a b.
+Proof. induction 1; [now apply t_step|eapply t_trans; [apply t_step; eassumption|assumption]]. Qed.
+
+Lemma cy_chain_suffix s a q b : forall p c l,
+  cy_chain s c l b -> c :: l = p ++ a :: q -> cy_chain s a q b.
+Proof.
+  induction p as [|x p IH]; intros c l Hc Heq.
+  - cbn in Heq. injection Heq as -> ->. exact Hc.
+  - cbn in Heq. injection Heq as -> Hl. inversion Hc as [? ? Hs|? c' l' ? Hs Hc']; subst.
+    + destruct p; discriminate.
+    + eapply IH; [exact Hc'|eassumption].
+Qed.
+
+Lemma NoDup_app_r {A : Type} (l l' : list A) : NoDup (l ++ l') -> NoDup l'.
+Proof.
+  induction l as [|x l IH]; cbn; [auto|]. intros H. inversion H; subst. auto.
+Qed.
+
+Definition str_eq_dec : forall a b : str, {a = b} + {a <> b} := list_eq_dec N.eq_dec.
+
+Lemma cy_chain_simple s a l b :
+  cy_chain s a l b -> exists l', cy_chain s a l' b /\ NoDup (a :: l') /\ ~ In b l'.
+Proof.
+  induction 1 as [a b Hs|a c l b Hs _ [l1 [Hc [Hnd Hnb]]]].
+  - exists []. split; [now constructor|]. split; [constructor; [intros []|constructor]|intros []].
+  - destruct (str_eq_dec c b) as [->|Hcb].
+    + exists []. split; [now constructor|]. split; [constructor; [intros []|constructor]|intros []].
+    + destruct (in_dec str_eq_dec a (c :: l1)) as [Hin|Hnin].
+      * apply in_split in Hin. destruct Hin as [p [q Heq]]. exists q.
+        split; [exact (cy_chain_suffix s a q b p c l1 Hc Heq)|]. split.
+        -- rewrite Heq in Hnd. exact (NoDup_app_r p (a :: q) Hnd).
+        -- intros Hbq. assert (Hb : In b (c :: l1)) by (rewrite Heq; apply in_or_app; right; now right).
+           destruct Hb as [Hb|Hb]; [congruence|auto].
+      * exists (c :: l1). split; [now constructor|]. split; [now constructor|].
+        intros [Hb|Hb]; [congruence|auto].
+Qed.
+
+(* ---------------------------------------------------------------- completeness: Ok -> no cycle through the root *)
+
+Lemma cy_complete s limit root : forall fuel rest fs,
+  cy_input_fields s limit fuel (root :: rest) fs = CyOk ->
+  forall f name, In f fs -> iv_ty f = TNonNullNamed name ->
+    (exists fsn, cy_get_input_object s name = Some fsn) ->
+    name <> root /\
+    forall l, cy_chain s name l root -> NoDup (name :: l) ->
+              (forall x, In x (name :: l) -> ~ In x (root :: rest)) -> False.
+Proof.
+  induction fuel as [|k IHk]; intros rest fs Hok; [discriminate|].
+  rewrite cy_input_fields_S in Hok. induction fs as [|f0 r IHr]; intros f name Hin Hty Hget; [contradiction|].
+  cbn [cy_loop] in Hok. destruct (cy_field_res s limit k (root :: rest) f0) eqn:Hres; try discriminate.
+  destruct Hin as [->|Hin]; [|exact (IHr Hok f name Hin Hty Hget)].
+  clear IHr Hok. unfold cy_field_res in Hres. rewrite Hty in Hres.
+  destruct (negb (cy_mem name (root :: rest))) eqn:Hmem.
+  - apply negb_true_iff in Hmem.
+    assert (Hnin : ~ In name (root :: rest)).
+    { intros Hc. apply cy_mem_In in Hc. congruence. }
+    destruct Hget as [fsn Hget]. rewrite Hget in Hres.
+    destruct (Nat.ltb limit (length ((root :: rest) ++ [name]))); [discriminate|].
+    change ((root :: rest) ++ [name]) with (root :: (rest ++ [name])) in Hres.
+    pose proof (IHk (rest ++ [name]) fsn Hres) as IH. split.
+    + intros ->. apply Hnin. now left.
+    + intros l Hc Hnd Havoid. inversion Hc as [? ? Hs|? c l' ? Hs Hc']; subst.
+      * destruct Hs as [fsa [g [fsb [Ha [Hg [Hgt Hb]]]]]].
+        assert (fsa = fsn) by congruence. subst fsa.
+        destruct (IH g root Hg Hgt (ex_intro _ fsb Hb)) as [Hne _]. now apply Hne.
+      * destruct Hs as [fsa [g [fsb [Ha [Hg [Hgt Hb]]]]]].
+        assert (fsa = fsn) by congruence. subst fsa.
+        destruct (IH g c Hg Hgt (ex_intro _ fsb Hb)) as [_ Hno].
+        apply (Hno l' Hc').
+        -- now inversion Hnd.
+        -- intros x Hx Hxin. change (root :: rest ++ [name]) with ((root :: rest) ++ [name]) in Hxin.
+           apply in_app_or in Hxin. destruct Hxin as [Hxin|[<-|[]]].
+           ++ apply (Havoid x); [now right|assumption].
+           ++ inversion Hnd as [|? ? Hnn _]; subst. now apply Hnn.
+  - apply negb_false_iff in Hmem. destruct (cy_first_is (root :: rest) name) eqn:Hfirst; [discriminate|].
+    split.
+    + intros ->. cbn in Hfirst. rewrite streq_refl in Hfirst. discriminate.
+    + intros l _ _ Havoid. apply (Havoid name); [now left|]. now apply cy_mem_In.
+Qed.
+
+(* ---------------------------------------------------------------- the theorem *)
+
+Theorem cy_input_check_correct s limit root fs :
+  cy_get_input_object s root = Some fs ->
+  cy_input_check_limit s limit root fs <> CyLimit ->
+  (cy_input_check_limit s limit root fs = CyRecursed <-> clos_trans str (cy_step s) root root).
+Proof.
+  intros Hget Hlim. unfold cy_input_check_limit in *. split.
+  - apply (cy_sound s limit root _ [] root fs).
+    + apply rt_refl.
+    + exists fs. split; [assumption|apply incl_refl].
+    + now exists fs.
+  - intros Hp.
+    assert (Hfuel : cy_input_fields s limit (S (S limit)) [root] fs <> CyFuel).
+    { apply cy_fuel_enough; [discriminate|cbn [length]; lia]. }
+    destruct (cy_input_fields s limit (S (S limit)) [root] fs) eqn:Hres; try congruence.
+    exfalso. destruct (cy_clos_chain _ _ _ Hp) as [l Hc].
+    destruct (cy_chain_simple _ _ _ _ Hc) as [l' [Hc' [Hnd Hnr]]].
+    inversion Hc' as [? ? Hs|? c l'' ? Hs Hc'']; subst.
+    + destruct Hs as [fsa [g [fsb [Ha [Hg [Hgt Hb]]]]]]. assert (fsa = fs) by congruence. subst fsa.
+      destruct (cy_complete s limit root _ [] fs Hres g root Hg Hgt (ex_intro _ fsb Hb)) as [Hne _].
+      now apply Hne.
+    + destruct Hs as [fsa [g [fsb [Ha [Hg [Hgt Hb]]]]]]. assert (fsa = fs) by congruence. subst fsa.
+      destruct (cy_complete s limit root _ [] fs Hres g c Hg Hgt (ex_intro _ fsb Hb)) as [_ Hno].
+      apply (Hno l'' Hc'').
+      * now inversion Hnd.
+      * intros x Hx [<-|[]]. inversion Hnd as [|? ? Hnn _]; subst. now apply Hnn.
+Qed.
+
+Lemma cy_clos_iff s a b : clos_trans str (cy_step s) a b <-> CsNNPath s a b.
+Proof.
+  unfold CsNNPath. split; intros H; induction H.
+  - apply t_step. now apply cy_step_spec.
+  - eapply t_trans; eassumption.
+  - apply t_step. now apply cy_step_spec.
+  - eapply t_trans; eassumption.
+Qed.
+
+(* C14_input_cycle *)
+Theorem cy_find_recursive_input_spec s d n dirs fs b :
+  sch_get_type s n = Some (EInput d n dirs fs b) ->
+  cy_input_check s n (map c_val fs) <> CyLimit ->
+  (cy_find_recursive_input s n (map c_val fs) = true <-> CsNNPath s n n).
+Proof.
+  intros Hg Hlim. rewrite <- cy_clos_iff.
+  assert (Hget : cy_get_input_object s n = Some (map c_val fs)) by (unfold cy_get_input_object; now rewrite Hg).
+  rewrite <- (cy_input_check_correct s cy_default_limit n (map c_val fs) Hget Hlim).
+  unfold cy_find_recursive_input, cy_input_check.
+  destruct (cy_input_check_limit s cy_default_limit n (map c_val fs)); split; congruence.
+Qed.
+
+(* and the search never runs out of fuel *)
+Theorem cy_input_check_total s n fs : cy_input_check s n fs <> CyFuel.
+Proof.
+  unfold cy_input_check, cy_input_check_limit. apply cy_fuel_enough; [discriminate|cbn [length]; lia].
+Qed.
